@@ -51,8 +51,8 @@ const (
 	nDims
 )
 
-var radices = []int{3, 2, 2, 2, 6, 2, 2, 2, 2, 2, 2}
-var valName = []string{"member", "never-validator", "validator-at-other-height-only"}
+var radices = []int{5, 2, 2, 2, 6, 2, 2, 2, 2, 2, 2}
+var valName = []string{"member", "never-validator", "validator-at-other-height-only", "member-of-this-set-only", "member-with-the-same-power-in-both-sets"}
 var idName = []string{"diff-hash", "same-id", "total-only", "partshash-only", "nil-vs-block", "nil-nil"}
 
 // ACase is the replayable description of one part-(a) case.
@@ -127,11 +127,18 @@ func accused(val int, h uint64) int {
 		return 1 // V1: member of both sets, power 20 in A and 25 in B
 	case 1:
 		return 5 // never a validator
-	default:
+	case 2:
 		if h < firstHeightOfB {
 			return 4 // only in set B
 		}
 		return 3 // only in set A
+	case 3:
+		if h < firstHeightOfB {
+			return 3 // member of set A only: leaves with height 4
+		}
+		return 4 // member of set B only: joined with height 4
+	default:
+		return 2 // V2: power 30 in both sets, only the total differs
 	}
 }
 
@@ -400,6 +407,9 @@ func judge(e *poolEnv, c ACase, path int, ev *types.DuplicateVoteEvidence, ref r
 	r.Add("evaluations", 1)
 	r.Add("evaluations_"+pathName[path], 1)
 	second := fmt.Sprintf("expiry=%s,set=%s", ref.Expiry, setName(c.EvH))
+	if c.EvH == c.PoolH && setName(c.EvH) != setName(c.EvH+1) {
+		second += ",pool-head-is-last-height-of-set"
+	}
 	rank := expiryRank[ref.Expiry]*4 + int(c.PoolH%2)
 	if setName(c.EvH) == "old" {
 		rank += 2
@@ -447,6 +457,9 @@ type combo struct {
 
 func matrixClass(d []int, ref refVerdict) string {
 	if ref.Valid || ref.DontCare {
+		if d[dVal] != 0 {
+			return idName[d[dID]] + "@" + valName[d[dVal]]
+		}
 		return idName[d[dID]]
 	}
 	return whyString(ref.Why)
@@ -815,6 +828,8 @@ func consensusPath(e *poolEnv, c ACase, ev *types.DuplicateVoteEvidence, class s
 
 // ---------------------------------------------------------------------------------------------
 
+var envHeads = []uint64{3, 4, 5, 10}
+
 func partACombos() []combo {
 	full := r.Thorough()
 	return []combo{
@@ -826,12 +841,20 @@ func partACombos() []combo {
 		{5, 5, full},
 		{5, 2, full}, // expired, old set
 		{5, 1, full}, // initial height, expired
+		// the pool has just committed the LAST height of the old set: its state already carries the next
+		// set (V1 20->25, V3 leaves, V4 joins, total 75->80) while the evidence height is signed by the old one
+		{3, 3, true},
+		{3, 2, full}, // one below the head, same set
+		{3, 1, full},
+		{4, 4, full}, // first height of the new set at the head
+		{4, 3, full}, // one below the head, the other set
 	}
 }
 
 func runPartA() {
-	initEnv(5)
-	initEnv(10)
+	for _, h := range envHeads {
+		initEnv(h)
+	}
 	cbs := partACombos()
 	for _, cb := range cbs {
 		if r.Expired() {
@@ -858,8 +881,9 @@ func runPartA() {
 
 // replayA re-executes one stored part-(a) case.
 func replayA(c ACase) bool {
-	initEnv(5)
-	initEnv(10)
+	for _, h := range envHeads {
+		initEnv(h)
+	}
 	e := envs[c.PoolH]
 	if e == nil {
 		fmt.Println("unknown pool height", c.PoolH)
